@@ -500,6 +500,35 @@ def Engine.failExceeding (e : Engine) : Engine × Res :=
     let (e2, r2) := e1.failAll (over e1.pendingPub e1) "MaxInterruptedRetriesExceeded"
     (e2, (Res.ok.fold r1).fold r2)
 
+/-- close handler, part 1: fail what the high-priority queue held (operations carrying a PUBREL are left to the
+    pending-publish pass), split the written-but-unflushed operations by policy, apply the retry limit -/
+def Engine.closeFailStage (e3 : Engine) : Engine × Res :=
+  let hq := e3.highQ
+  let e4 := { e3 with highQ := [] }
+  let failures := hq.filter (fun id => match e4.op? id with | some o => o.pubrel.isNone | none => true)
+  let (e5, ra) := e4.failAllIgnoringDisconnect failures "ConnectionClosed"
+  -- operations written but not flushed
+  let wc := e5.pendingWC
+  let e6 := { e5 with pendingWC := [] }
+  let (retained, rejected) := e6.partitionByPolicy wc
+  let e7 := { e6 with userQ := e6.userQ ++ retained }
+  let (e8, rb) := e7.failAllIgnoringDisconnect rejected "OfflineQueuePolicyFailed"
+  let (e9, rc) := e8.failExceeding
+  (e9, ((Res.ok.fold ra).fold rb).fold rc)
+
+/-- close handler, part 2: unacked QoS1+ publishes get DUP and go to the back of the resubmit queue, unacked
+    subscribes/unsubscribes to the front of the user queue, then the user queue is filtered by policy -/
+def Engine.closeRequeueStage (e9 : Engine) : Engine × Res :=
+  let pubs := e9.pendingPub.map (·.2)
+  let e10 := pubs.foldl (fun en id => { en.setDupFlag id true with resubQ := en.resubQ ++ [id] }) { e9 with pendingPub := [] }
+  let nons := e10.pendingNonPub.map (·.2)
+  let e11 := nons.foldl (fun en id => { en with userQ := id :: en.userQ }) { e10 with pendingNonPub := [] }
+  let uq := e11.userQ
+  let e12 := { e11 with userQ := [] }
+  let (keepU, rejU) := e12.partitionByPolicy uq
+  let (e13, rd) := e12.failAll rejU "OfflineQueuePolicyFailed"
+  ({ e13 with userQ := e13.userQ ++ keepU }, rd)
+
 /-- `handle_network_event_connection_closed` -/
 def Engine.handleClosed (e : Engine) : Engine × Res :=
   if e.state == .disconnected then (e, .err "InternalStateError")
@@ -513,29 +542,9 @@ def Engine.handleClosed (e : Engine) : Engine × Res :=
         match e2.updateInterrupted with
         | none => (e2, .panic "unwrap_operation@update_interrupted_retries")
         | some e3 =>
-          -- high priority queue: operations carrying a PUBREL are left to the pending-publish pass
-          let hq := e3.highQ
-          let e4 := { e3 with highQ := [] }
-          let failures := hq.filter (fun id => match e4.op? id with | some o => o.pubrel.isNone | none => true)
-          let (e5, ra) := e4.failAllIgnoringDisconnect failures "ConnectionClosed"
-          -- operations written but not flushed
-          let wc := e5.pendingWC
-          let e6 := { e5 with pendingWC := [] }
-          let (retained, rejected) := e6.partitionByPolicy wc
-          let e7 := { e6 with userQ := e6.userQ ++ retained }
-          let (e8, rb) := e7.failAllIgnoringDisconnect rejected "OfflineQueuePolicyFailed"
-          let (e9, rc) := e8.failExceeding
-          -- unacked QoS1+ publishes: DUP, to the back of the resubmit queue
-          let pubs := e9.pendingPub.map (·.2)
-          let e10 := pubs.foldl (fun en id => { en.setDupFlag id true with resubQ := en.resubQ ++ [id] }) { e9 with pendingPub := [] }
-          -- unacked subscribes/unsubscribes: to the front of the user queue
-          let nons := e10.pendingNonPub.map (·.2)
-          let e11 := nons.foldl (fun en id => { en with userQ := id :: en.userQ }) { e10 with pendingNonPub := [] }
-          let uq := e11.userQ
-          let e12 := { e11 with userQ := [] }
-          let (keepU, rejU) := e12.partitionByPolicy uq
-          let (e13, rd) := e12.failAll rejU "OfflineQueuePolicyFailed"
-          ({ e13 with userQ := e13.userQ ++ keepU }, (((Res.ok.fold ra).fold rb).fold rc).fold rd)
+          let (e9, rabc) := e3.closeFailStage
+          let (e14, rd) := e9.closeRequeueStage
+          (e14, rabc.fold rd)
 
 /-- `handle_network_event_write_completion` -/
 def Engine.handleWriteCompletion (e : Engine) : Engine × Res :=
@@ -1045,6 +1054,12 @@ def foldTime (base : Option Nat) (new : Nat) : Option Nat :=
   | some b => if b < new then some b else some new
   | none => some new
 
+/-- fold the earliest ack timeout into a time, unless it belongs to the operation being written -/
+def Engine.foldAckTimeout (e : Engine) (t0 : Option Nat) : Option Nat :=
+  match e.nextAckTimeout with
+  | some (id, d) => if e.current != some id then foldTime t0 d else t0
+  | none => t0
+
 /-- `get_next_service_timepoint`; the outer `Option` is `none` for an `unwrap()` panic -/
 def Engine.nextServiceTime (e : Engine) : Option (Option Nat) :=
   match e.state with
@@ -1054,19 +1069,10 @@ def Engine.nextServiceTime (e : Engine) : Option (Option Nat) :=
      | none => none
      | some d => some (foldTime (e.nextQueueTime false) d))
   | .connected =>
-    let t0 := minOpt none e.pingDeadline
-    let t1 := match e.nextAckTimeout with
-      | some (id, d) => if e.current != some id then foldTime t0 d else t0
-      | none => t0
+    let t1 := e.foldAckTimeout (minOpt none e.pingDeadline)
     if e.pendingWrite then some t1
-    else
-      let t2 := minOpt t1 e.nextPing
-      some (minOpt (e.nextQueueTime true) t2)
-  | .pendingDisconnect =>
-    let t0 := e.nextQueueTime false
-    some (match e.nextAckTimeout with
-      | some (id, d) => if e.current != some id then foldTime t0 d else t0
-      | none => t0)
+    else some (minOpt (e.nextQueueTime true) (minOpt t1 e.nextPing))
+  | .pendingDisconnect => some (e.foldAckTimeout (e.nextQueueTime false))
   | .halted => some none
 
 /-! ### reset -/
